@@ -46,6 +46,43 @@ def main():
             finally:
                 shutil.rmtree(d, ignore_errors=True)
             continue
+        if 'e2e' in c:   # nnvg end to end: real language configuration -> CodeGenerator.__init__ -> _handle_post_processors -> file
+            import os
+            import shutil
+            import subprocess
+            import tempfile
+            d = tempfile.mkdtemp(prefix='c15e2e-')
+            try:
+                e = c['e2e']
+                os.makedirs(os.path.join(d, 'ns'))
+                os.makedirs(os.path.join(d, 't'))
+                with open(os.path.join(d, 'ns', 'A.1.0.dsdl'), 'w') as g:
+                    g.write('uint8 x\n@sealed\n')
+                for tname in ('StructureType.j2', 'Namespace.j2'):
+                    with open(os.path.join(d, 't', tname), 'w', encoding='utf-8', newline='') as g:
+                        g.write(e['template_text'])
+                cmd = [sys.executable, '-m', 'nunavut', '--target-language', e['lang'], '--templates', os.path.join(d, 't'),
+                       '-O', os.path.join(d, 'out'), os.path.join(d, 'ns')] + e.get('args', [])
+                q = subprocess.run(cmd, stdout=subprocess.PIPE, stderr=subprocess.STDOUT, text=True, timeout=120)
+                from nunavut.lang import LanguageContextBuilder
+                lang = LanguageContextBuilder(include_experimental_languages=True).set_target_language(e['lang']).create().get_target_language()
+                try:
+                    limit = int(lang.get_config_value('limit_empty_lines'))
+                except KeyError:
+                    limit = None
+                trim = lang.get_config_value_as_bool('trim_trailing_whitespace')
+                ext = lang.get_config_value('extension')
+                path = os.path.join(d, 'out', 'ns', 'A_1_0' + ext)
+                if q.returncode != 0 or not os.path.exists(path):
+                    outs.append({'err': 'nnvg rc=%d: %s' % (q.returncode, q.stdout[-300:])})
+                else:
+                    with open(path, 'r', encoding='utf-8', newline='') as g:
+                        outs.append({'ok': g.read(), 'limit': limit, 'trim': trim})
+            except Exception as ex:  # noqa
+                outs.append({'err': repr(ex)})
+            finally:
+                shutil.rmtree(d, ignore_errors=True)
+            continue
         if 'handle' in c:   # the real CodeGenerator._handle_post_processors with a stub language object
             import nunavut._postprocessors as P
 
